@@ -56,6 +56,14 @@ Fixpoint le_bytes (n : nat) (z : Z) : string :=
 (** binary.LittleEndian.PutUint64(buf, uint64(ttl)) *)
 Definition le64 (z : Z) : string := le_bytes 8 z.
 
+(** ttlHash (since 8647e06): the configured cache ttl as part of a key — one byte 0 if none is
+    configured, else the byte 1 and the 8 little-endian bytes of the nanoseconds *)
+Definition ttl_hash (t : option Z) : string :=
+  match t with
+  | None => String zero ""
+  | Some z => String one (le64 z)
+  end.
+
 Definition hexdigit (n : N) : ascii :=
   match n with
   | 0 => "0" | 1 => "1" | 2 => "2" | 3 => "3" | 4 => "4" | 5 => "5" | 6 => "6" | 7 => "7"
@@ -421,6 +429,20 @@ Definition policy_ok (i : inst) (r : result) : bool :=
   | KCtx => true
   end.
 
+(** the remote authorizer hands the response headers named in
+    forward_response_headers_to_upstream on to the upstream service — from a
+    cached response as from a fresh one.  The harness's authorization endpoint
+    sets X-Up and X-Up2 from the request body. *)
+Definition response_header (n : string) (s : sent) : string :=
+  if String.eqb n "X-Up" then ("u1:" ++ s_body s)%string
+  else if String.eqb n "X-Up2" then ("u2:" ++ s_body s)%string else "".
+
+Definition upstream_of (i : inst) (o : outcome) : alist :=
+  match i_kind i, o with
+  | KRemote, OAllow r => filter nonempty (map (fun n => (n, response_header n (rs_sent r))) (i_up i))
+  | _, _ => []
+  end.
+
 (** a fresh evaluation (no cache) and whether the remote system is called *)
 Definition exec_fresh (w : world) (i : inst) (q : reqdata) : outcome * nat :=
   match mk_sent i q with
@@ -479,8 +501,8 @@ Section Keys.
   (** the writes of calculateCacheKey, [None] when rendering fails before the key is computed *)
   Definition key_fields (ho vo : list string) (i : inst) (q : reqdata) : option (list fld) :=
     match i_kind i with
-    | KIntro => Some [FX (ep_hash ho (eff_ep i)); FV (tpl_text (e_url (i_ep i))); FV (q_cred q)]
-    | KGen => Some [FX (ep_hash ho (eff_ep i)); FV (q_cred q)]
+    | KIntro => Some [FX (ep_hash ho (eff_ep i)); FV (tpl_text (e_url (i_ep i))); FV (q_cred q); FX (ttl_hash (i_ttl i))]
+    | KGen => Some [FX (ep_hash ho (eff_ep i)); FV (q_cred q); FX (ttl_hash (Some (ttl_val i)))]
     | KRemote =>
       match rendered i q with
       | None => None
